@@ -66,11 +66,19 @@ def generate(seed, tier):
     se = r.choice([1, 1, 1, 2, 4])
     span = r.randint(1, 8 if tier == "thorough" else 6)
     runs = [{"starting_epoch": se, "epochs": se + span - 1}]
-    if r.random() < 0.3:
-        if r.random() < 0.5:
+    if r.random() < 0.4:
+        m2 = r.random()
+        if m2 < 0.4:
             runs.append({"starting_epoch": se + span, "epochs": se + span + r.randint(0, 4), "clear": r.random() < 0.3})
-        else:
+        elif m2 < 0.6:
             runs.append({"starting_epoch": 1, "epochs": r.randint(1, 5), "clear": True})
+        elif m2 < 0.8:
+            # the same epoch range again after clear_history (same number of evaluations as the first run)
+            runs.append({"starting_epoch": se, "epochs": se + span - 1, "clear": True})
+        else:
+            # a shifted range of the same length after clear_history
+            sh = r.choice([1, 2, 3, 4, 6])
+            runs.append({"starting_epoch": se + sh, "epochs": se + sh + span - 1, "clear": True})
     cbs = gen_callbacks(r, scfg["type"])
     faults = []
     nb = ceil(dcfg["N"] / 2)
@@ -240,6 +248,87 @@ def execute(plan):
                 epochs_run.append(key)
                 ee_params[key] = params_snapshot(nn_state)
                 ee_metric[key] = {"alpha": pure_metric_a(nn_state), "beta": pure_metric_b(nn_state)}
+                for rec_ in recs:
+                    if rec_["spec"]["kind"] in ("metric", "observable"):
+                        accessors(rec_, "epoch-end")
+
+
+        def accessors(rec, when):
+            """Everything the evaluator exposes must agree with the witness record so far.
+            Called at every epoch end (the witness runs last), after every run and at the end."""
+            if rec.get("acc_bad"):
+                return
+            nviol = len(run.violations)
+            spec = rec["spec"]
+            p = spec["period"]
+            due = [k for k in epochs_run if k[1] % p == 0]
+            detail = dict(kind=spec["kind"], period=p, type=scfg["type"], when=when)
+            ev = rec["cb"]
+            if spec["kind"] == "metric":
+                # what the accessors must show: evaluations since the last clear
+                first_kept = max([ri for (ri, i) in cleared_before if i == rec["i"]] or [0])
+                kept = [k for k in due if k[0] >= first_kept]
+                names = rec["names"]
+                vals = [{n: ee_metric[k][n] for n in names} for k in kept]
+                pass
+                try:
+                    if len(ev) != len(kept):
+                        run.violate("17-len", f"len(evaluator) = {len(ev)}, {len(kept)} evaluations happened", **detail)
+                    if list(ev.epochs) != [k[1] for k in kept]:
+                        run.violate("17-epochs", f"epochs accessor {list(ev.epochs)[:10]}, evaluations happened at {[k[1] for k in kept][:10]}", **detail)
+                    if list(ev.names) != names:
+                        run.violate("17-names", f"names accessor {ev.names}", **detail)
+                    for n in names:
+                        want = [v[n] for v in vals]
+                        for acc, got in (("getitem", list(ev[n])), ("getattr", list(getattr(ev, n)))):
+                            if got != want:
+                                run.violate("17-values", f"{acc} '{n}' = {got[:6]}, witnessed {want[:6]}", accessor=acc, **detail)
+                        for ix in range(-len(kept), len(kept)):
+                            if ev.get_value(n, ix) != want[ix]:
+                                run.violate("17-index", f"get_value('{n}', {ix}) = {ev.get_value(n, ix)!r}, witnessed {want[ix]!r}", **detail)
+                                break
+                        if kept and ev.get_value(n) != want[-1]:
+                            run.violate("17-index", f"get_value('{n}') is not the most recent value", **detail)
+                    if kept and ev.last != vals[-1]:
+                        run.violate("17-last", f"last = {ev.last}, most recent evaluation {vals[-1]}", **detail)
+                    if not kept and cleared_before and ev.last != {}:
+                        run.violate("17-last", f"last = {ev.last} although no evaluation happened since clear_history", **detail)
+                except Exception as exc:  # noqa: BLE001
+                    run.lib_exception(exc, "metric evaluator accessors", **detail)
+            elif spec["kind"] == "observable":
+                first_kept = max([ri for (ri, i) in cleared_before if i == rec["i"]] or [0])
+                keptv = [(r_, e, v) for (r_, e, v) in rec["values"] if r_ >= first_kept]
+                names = rec["names"]
+                pass
+                try:
+                    if len(ev) != len(keptv):
+                        run.violate("17-len", f"len(evaluator) = {len(ev)}, {len(keptv)} evaluations happened", **detail)
+                    if list(ev.epochs) != [e for (_, e, _) in keptv]:
+                        run.violate("17-epochs", f"epochs accessor {list(ev.epochs)[:10]}", **detail)
+                    if list(ev.names) != names:
+                        run.violate("17-names", f"names accessor {ev.names}", **detail)
+                    for n in names:
+                        for acc in ("getitem", "getattr"):
+                            st = ev[n] if acc == "getitem" else getattr(ev, n)
+                            for stat, plural in (("mean", "means"), ("variance", "variances"), ("std_error", "std_errors"), ("num_samples", "num_samples")):
+                                want = [v[n][stat] for (_, _, v) in keptv]
+                                for form in {stat, plural}:
+                                    got1 = list(getattr(st, form))
+                                    got2 = list(st[form])
+                                    if not _eq_list(got1, want) or not _eq_list(got2, want):
+                                        run.violate("17-values", f"{n}.{form} = {got1[:5]}, witnessed {want[:5]}", accessor=acc, **detail)
+                        for ix in range(-len(keptv), len(keptv)):
+                            if not _eq_dict(ev.get_value(n, ix), keptv[ix][2][n]):
+                                run.violate("17-index", f"get_value('{n}', {ix}) differs from the witnessed statistics", **detail)
+                                break
+                        if keptv and not _eq_dict(ev.get_value(n), keptv[-1][2][n]):
+                            run.violate("17-index", f"get_value('{n}') is not the most recent statistics", **detail)
+                    if keptv and not all(_eq_dict(ev.last.get(n, {}), keptv[-1][2][n]) for n in names):
+                        run.violate("17-last", "last does not hold the most recent statistics", **detail)
+                except Exception as exc:  # noqa: BLE001
+                    run.lib_exception(exc, "observable evaluator accessors", **detail)
+            if len(run.violations) > nviol:
+                rec["acc_bad"] = True
 
         disk_fault = next((f for f in plan["faults"] if f["kind"] in ("crash_write", "enospc", "eio")), None)
         fit_faults = [f for f in plan["faults"] if f["kind"] in ("stop_cb", "crash_line")]
@@ -273,6 +362,9 @@ def execute(plan):
                     break
                 run.lib_exception(info["raised"], "fit", type=scfg["type"])
                 break
+            for rec_ in recs:
+                if rec_["spec"]["kind"] in ("metric", "observable"):
+                    accessors(rec_, f"after run {ri}")
         rng.check_global()
 
         # =====================================================================
@@ -296,36 +388,9 @@ def execute(plan):
                         break
                 if not full:
                     continue
-                # what the accessors must show: evaluations since the last clear
-                first_kept = max([ri for (ri, i) in cleared_before if i == rec["i"]] or [0])
-                kept = [k for k in due if k[0] >= first_kept]
                 names = rec["names"]
-                vals = [{n: ee_metric[k][n] for n in names} for k in kept]
                 actions += len(due)
-                try:
-                    if len(ev) != len(kept):
-                        run.violate("17-len", f"len(evaluator) = {len(ev)}, {len(kept)} evaluations happened", **detail)
-                    if list(ev.epochs) != [k[1] for k in kept]:
-                        run.violate("17-epochs", f"epochs accessor {list(ev.epochs)[:10]}, evaluations happened at {[k[1] for k in kept][:10]}", **detail)
-                    if list(ev.names) != names:
-                        run.violate("17-names", f"names accessor {ev.names}", **detail)
-                    for n in names:
-                        want = [v[n] for v in vals]
-                        for acc, got in (("getitem", list(ev[n])), ("getattr", list(getattr(ev, n)))):
-                            if got != want:
-                                run.violate("17-values", f"{acc} '{n}' = {got[:6]}, witnessed {want[:6]}", accessor=acc, **detail)
-                        for ix in range(-len(kept), len(kept)):
-                            if ev.get_value(n, ix) != want[ix]:
-                                run.violate("17-index", f"get_value('{n}', {ix}) = {ev.get_value(n, ix)!r}, witnessed {want[ix]!r}", **detail)
-                                break
-                        if kept and ev.get_value(n) != want[-1]:
-                            run.violate("17-index", f"get_value('{n}') is not the most recent value", **detail)
-                    if kept and ev.last != vals[-1]:
-                        run.violate("17-last", f"last = {ev.last}, most recent evaluation {vals[-1]}", **detail)
-                    if not kept and cleared_before and ev.last != {}:
-                        run.violate("17-last", f"last = {ev.last} although no evaluation happened since clear_history", **detail)
-                except Exception as exc:  # noqa: BLE001
-                    run.lib_exception(exc, "metric evaluator accessors", **detail)
+                accessors(rec, "end")
                 if rec["log"]:
                     _check_csv(run, disk, rec["log"], ["epoch"] + names, [dict(epoch=k[1], **ee_metric[k]) for k in due], names, detail)
             elif spec["kind"] == "observable":
@@ -340,37 +405,9 @@ def execute(plan):
                         break
                 if not full:
                     continue
-                first_kept = max([ri for (ri, i) in cleared_before if i == rec["i"]] or [0])
-                keptv = [(r_, e, v) for (r_, e, v) in rec["values"] if r_ >= first_kept]
                 names = rec["names"]
                 actions += len(due)
-                try:
-                    if len(ev) != len(keptv):
-                        run.violate("17-len", f"len(evaluator) = {len(ev)}, {len(keptv)} evaluations happened", **detail)
-                    if list(ev.epochs) != [e for (_, e, _) in keptv]:
-                        run.violate("17-epochs", f"epochs accessor {list(ev.epochs)[:10]}", **detail)
-                    if list(ev.names) != names:
-                        run.violate("17-names", f"names accessor {ev.names}", **detail)
-                    for n in names:
-                        for acc in ("getitem", "getattr"):
-                            st = ev[n] if acc == "getitem" else getattr(ev, n)
-                            for stat, plural in (("mean", "means"), ("variance", "variances"), ("std_error", "std_errors"), ("num_samples", "num_samples")):
-                                want = [v[n][stat] for (_, _, v) in keptv]
-                                for form in {stat, plural}:
-                                    got1 = list(getattr(st, form))
-                                    got2 = list(st[form])
-                                    if not _eq_list(got1, want) or not _eq_list(got2, want):
-                                        run.violate("17-values", f"{n}.{form} = {got1[:5]}, witnessed {want[:5]}", accessor=acc, **detail)
-                        for ix in range(-len(keptv), len(keptv)):
-                            if not _eq_dict(ev.get_value(n, ix), keptv[ix][2][n]):
-                                run.violate("17-index", f"get_value('{n}', {ix}) differs from the witnessed statistics", **detail)
-                                break
-                        if keptv and not _eq_dict(ev.get_value(n), keptv[-1][2][n]):
-                            run.violate("17-index", f"get_value('{n}') is not the most recent statistics", **detail)
-                    if keptv and not all(_eq_dict(ev.last.get(n, {}), keptv[-1][2][n]) for n in names):
-                        run.violate("17-last", "last does not hold the most recent statistics", **detail)
-                except Exception as exc:  # noqa: BLE001
-                    run.lib_exception(exc, "observable evaluator accessors", **detail)
+                accessors(rec, "end")
                 if "applied" in rec and full:
                     # the instrumented observable is applied only while its evaluator is evaluating
                     bad = [e for e in rec["applied"] if e % p != 0]
